@@ -20,7 +20,7 @@ CHECKS = {
             "DESIGN.md section 6 C19"),
 }
 
-TOWER_NOTE = "tower_rig mirrors main.rs' wiring (listener order, cache 6 / index 100); SimNode semantics (Appendix C) generate histories, RPC verdicts are inputs to validation; integers for users/transactions, no locator collisions, C17 assumed; design-level bounds: 1-2 users, 1-2 disputes, CACHE_N=2, IDX_N=IRR=3, RETRY_N=2 (MC_Tower configs in lib/mc_tower.py)"
+TOWER_NOTE = "tower_rig mirrors main.rs' wiring (listener order, cache 6 / index 100); SimNode semantics (Appendix C) generate histories, RPC verdicts are inputs to validation; integers for users/transactions, no locator collisions, C17 assumed; design-level bounds: 1-2 users, 1-2 disputes, CACHE_N=2, IDX_N=IRR=3, RETRY_N=2 (MC_Tower configs in lib/mc_tower.py); C01 C02 C03 C04 C07 C08 C09 C12 also run their main.rs-sensitive scenarios on the REAL teosd binary against the simulated node over HTTP JSON-RPC (end-to-end tier, judged at block granularity by the same specification)"
 TOWER_TECH = 'TLA+ specification of the tower (Tower.tla) model-checked with TLC against property monitors (TowerProps.tla, MC_Tower.tla); implementation traces of the real Watcher/Responder/Gatekeeper/Carrier/ChainMonitor/InternalAPI validated step by step by Trace_Tower.tla (same monitors + allowed-successor check)'
 CHECKS.update({
     "C01": ("model_checking", TOWER_TECH, 'Model checking: TLC explores every environment behaviour (requests, blocks, reorgs, free node verdicts) of the bounded MC_Tower configs and evaluates the C01 (breach answered / dropped) monitors on every step. Conformance: hundreds of targeted and seeded random histories are executed on the real tower components over SQLite and a simulated bitcoind; every observed step is checked by TLC against the same monitors and against the successor Tower.tla allows (per-component comparison of users/appointments/trackers/heights/RPCs), so a code change breaking the property shows up as a rejected step.', TOWER_NOTE, "DESIGN.md section 6 C01"),
@@ -45,7 +45,7 @@ CHECKS["C03"] = ("fault_enumeration",
     "nothing durable and keeps the tower id, and after a crash inside chain processing the final durable state equals the "
     "uninterrupted run's.",
     TOWER_NOTE + "; an in-process unwind + dropping all objects + reopening the SQLite file is equivalent to a process kill for the "
-    "durable state (open transactions roll back); the end-to-end teosd binary tier is not built yet",
+    "durable state (open transactions roll back); restarts of the real teosd binary (SIGKILL between requests / blocks) are part of the end-to-end tier; restarts between any two actions are also explored at the design level (MC_Tower Restart action) and TLC behaviours with restarts are replayed on the real tower",
     "DESIGN.md section 6 C03")
 
 CHECKS["C12"] = ("fault_enumeration",
@@ -114,7 +114,8 @@ CHECKS["C10"] = ("model_checking",
     "Two or three operations drawn from the property's set run on real threads; every schedule at lock-acquisition / node-RPC "
     "granularity with at most 2 (thorough 3) preemptions is executed from a common checkpoint (capped per operation set), plus random "
     "schedules. TLC accepts an execution iff some sequential order of the requests and of the per-listener critical sections of the "
-    "chain event, run through the specification's operators, yields exactly the observed replies and final state; slot conservation, "
+    "chain event, compatible with the real-time order of invocations and returns, run through the specification's operators, yields "
+    "exactly the observed replies, final state and set of submitted transactions; slot conservation, "
     "memory = disk and no orphan records are checked on the same state.",
     TOWER_NOTE + "; scheduling points = instrumented mutexes + node RPCs; start block / expiry echoed by add_appointment (read when the "
     "handler starts) compared leniently; exploration is bounded (preemptions, schedules per set)",
